@@ -201,6 +201,10 @@ fn main() {
             }
             Ok(Err(e)) => {
                 rejected += 1;
+                if d["key"] == "discovery" {
+                    // a hand-written document of the discovery check must be a document
+                    emit("refs", format!("a directed discovery document does not parse: {e}"));
+                }
                 if expect == "accept" {
                     emit("parse_reject", format!("the text is derivable from the grammar but Document::parse rejects it: {e}"));
                 }
